@@ -42,7 +42,7 @@ func verifC02(maxChunks int, sizes []int) {
 		cuts := []int{1, ss - 1, ss, ss + 1, ss + 2 + 16, 49, 50, 51, len(stream) - 1}
 		if verifTier() > 0 {
 			cuts = nil
-			for i := 1; i < len(stream); i++ {
+			for i := 1; i < len(stream); i += 2 {
 				cuts = append(cuts, i)
 			}
 		}
@@ -109,7 +109,7 @@ func verifC02(maxChunks int, sizes []int) {
 
 func VH_C02_relay() { verifC02(1, []int{1, 3}) }
 
-func VH_C02_relay_T() { verifC02(2, []int{1, 3, 40}) }
+func VH_C02_relay_T() { verifC02(2, []int{1, 40}) }
 
 // C15: one status naming the real outcome for every way a connection can end after
 // authentication; the byte counters never exceed what crossed the sockets
